@@ -170,6 +170,15 @@ def oracle(case, il, ctx):
             body = body[2:]
         if body.startswith(b"<"):
             name = body[1:].split(b":")[0]
+        elif body.startswith(b'"'):
+            # a name that is not a plain word is printed as a quoted string (\" \\ \$ escapes)
+            name, k = bytearray(), 1
+            while k < len(body) and body[k:k + 1] != b'"':
+                if body[k:k + 1] == b"\\" and k + 1 < len(body):
+                    k += 1
+                name += body[k:k + 1]
+                k += 1
+            name = bytes(name)
         else:
             name = body.split(b"=")[0].split(b" ")[0]
         got.append((ind // 2, name))
